@@ -30,6 +30,7 @@ import (
 
 	"github.com/smallstep/certificates/acme"
 	env "verif/harness/cmd/c12/acmeenv"
+	srv "verif/harness/cmd/c12/acmeserved"
 	c "verif/harness/common"
 )
 
@@ -66,6 +67,11 @@ type Case struct {
 	Keys  []KeySpec
 	Reqs  []ReqSpec
 	Sched string
+	// stage server: the requests go over TLS to the real server (ca.New + Run, enableAdmin); before request
+	// number EventAt the server is reloaded (CA.Reload) or restarted (Stop, store reopened, ca.New)
+	Srv     bool
+	Event   string // "" | reload | restart
+	EventAt int
 }
 
 // ---------------------------------------------------------------- environment
@@ -125,9 +131,27 @@ func (g *gateDB) UpdateAccount(ctx context.Context, acc *acme.Account) error {
 }
 
 type world struct {
-	e    *env.Env
-	gate *gateDB
-	pol  *env.PolicyDB
+	e      *env.Env
+	gate   *gateDB
+	pol    *env.PolicyDB
+	served *srv.Served
+}
+
+// pid is the id under which the serving authority knows the i-th provisioner (binding keys are stored under it).
+func (w *world) pid(i int) string {
+	p := provs[i%len(provs)]
+	if w.served != nil {
+		return w.served.PIDs[p.Name]
+	}
+	return p.ID
+}
+
+func newServedWorld() (*world, error) {
+	s, err := srv.NewWith(provs, true)
+	if err != nil {
+		return nil, err
+	}
+	return &world{e: s.Env, served: s}, nil
 }
 
 func newWorld() (*world, error) {
@@ -340,8 +364,7 @@ func (w *world) run(k *Case) (line, impl, oracle string) {
 	e := w.e
 	var keys []liveKey
 	for _, ks := range k.Keys {
-		p := provs[ks.Prov%len(provs)]
-		eak, err := e.RealDB.CreateExternalAccountKey(ctx, p.ID, "")
+		eak, err := e.RealDB.CreateExternalAccountKey(ctx, w.pid(ks.Prov), "")
 		if err != nil {
 			return "", "setup-failed", ""
 		}
@@ -355,7 +378,22 @@ func (w *world) run(k *Case) (line, impl, oracle string) {
 	outs := make([]outcome, len(bs))
 	if k.Kind == "hist" || k.Sched == "" {
 		for i, b := range bs {
+			if w.served != nil && k.Event != "" && i == k.EventAt {
+				var err error
+				if k.Event == "reload" {
+					err = w.served.Reload()
+				} else {
+					err = w.served.Restart(true)
+				}
+				if err != nil {
+					fmt.Fprintln(os.Stderr, "server stage: "+k.Event+" failed:", err)
+					return "", "setup-failed", ""
+				}
+			}
 			rec := e.Do("POST", b.path, b.body)
+			if srv.Failed(rec) {
+				return "", "setup-failed", "" // the server could not be reached: no observation
+			}
 			outs[i] = outcome{class: env.Class(rec), accID: env.LastPathElem(rec.Header().Get("Location"))}
 		}
 	} else {
@@ -442,7 +480,7 @@ func (w *world) run(k *Case) (line, impl, oracle string) {
 	var fks []finalKey
 	var kparts []string
 	for i, lk := range keys {
-		got, err := e.RealDB.GetExternalAccountKey(ctx, provs[lk.spec.Prov%len(provs)].ID, lk.id)
+		got, err := e.RealDB.GetExternalAccountKey(ctx, w.pid(lk.spec.Prov), lk.id)
 		if err != nil {
 			kparts = append(kparts, fmt.Sprintf("%d:err", i+1))
 			fks = append(fks, finalKey{})
@@ -725,7 +763,7 @@ func main() {
 	n := flag.Int("n", 300, "number of generated cases")
 	out := flag.String("out", "", "output file")
 	replay := flag.String("replay", "", "file of lines carrying case=x… to re-run")
-	stage := flag.String("stage", "hist", "hist | conc | bindonce | policy | order | migrate")
+	stage := flag.String("stage", "hist", "hist | conc | bindonce | policy | order | migrate | server")
 	flag.Parse()
 	o, err := c.NewOut(*out)
 	if err != nil {
@@ -743,6 +781,25 @@ func main() {
 		os.Exit(2)
 	}
 	defer func() { w.e.Close() }()
+	var sw *world
+	swFailed := false
+	defer func() {
+		if sw != nil {
+			sw.e.Close()
+		}
+	}()
+	servedWorld := func() *world {
+		if sw == nil && !swFailed {
+			nw, err := newServedWorld()
+			if err != nil {
+				fmt.Fprintln(os.Stderr, "server stage: set-up failed:", err)
+				swFailed = true
+				return nil
+			}
+			sw = nw
+		}
+		return sw
+	}
 	emitted := 0
 	recycle := func() {
 		emitted++
@@ -760,6 +817,12 @@ func main() {
 		// the store keeps one JSON list of all key ids per provisioner (rewritten on every key
 		// creation): start over with a fresh environment now and then to stay linear
 		recycle()
+		ww := w
+		if k.Srv {
+			if ww = servedWorld(); ww == nil {
+				return // inconclusive
+			}
+		}
 		var line, impl, oracle string
 		func() {
 			defer func() {
@@ -768,7 +831,7 @@ func main() {
 					line, impl, oracle = k.Kind+" v=2 crashed case=x"+hex.EncodeToString(js), "crash", "crash"
 				}
 			}()
-			line, impl, oracle = w.run(k)
+			line, impl, oracle = ww.run(k)
 		}()
 		if line == "" {
 			return
@@ -876,6 +939,33 @@ func main() {
 		}
 		for i := 0; i < *n; i++ {
 			emit(genHist(r.Fork()))
+		}
+	case "server":
+		// the histories of `hist`, through the real server (ca.New + Run with enableAdmin: the provisioners were
+		// migrated to the admin database at the start); every third history has the server reloaded, every
+		// third restarted, somewhere between two of its requests
+		ev := func(k *Case, i int) *Case {
+			k.Srv = true
+			if len(k.Reqs) > 1 {
+				k.Event = []string{"", "reload", "restart"}[i%3]
+				k.EventAt = 1 + i/3%(len(k.Reqs)-1)
+			}
+			return k
+		}
+		i := 0
+		for _, event := range []string{"", "reload", "restart"} {
+			// the key is spent, then the event, then the same key by another account, by the same account, under the other provisioner
+			emit(&Case{Kind: "hist", Srv: true, Event: event, EventAt: 1, Keys: []KeySpec{{0}}, Reqs: []ReqSpec{{Prov: 0, AccKey: 0, Bind: validBind(0)},
+				{Prov: 0, AccKey: 1, Bind: validBind(0)}, {Prov: 0, AccKey: 0, Bind: validBind(0)}, {Prov: 1, AccKey: 2, Bind: validBind(0)}}})
+			// no binding where one is required, after the event; and the provisioner that does not require one
+			emit(&Case{Kind: "hist", Srv: true, Event: event, EventAt: 1, Keys: []KeySpec{{0}}, Reqs: []ReqSpec{{Prov: 2, AccKey: 0, Bind: BindSpec{Omit: true}},
+				{Prov: 0, AccKey: 1, Bind: BindSpec{Omit: true}}, {Prov: 1, AccKey: 1, Bind: BindSpec{Omit: true}}, {Prov: 0, AccKey: 1, Bind: validBind(0)}}})
+			// a key issued before the event, first used after it
+			emit(&Case{Kind: "hist", Srv: true, Event: event, EventAt: 0, Keys: []KeySpec{{0}, {1}}, Reqs: []ReqSpec{{Prov: 0, AccKey: 0, Bind: validBind(0)},
+				{Prov: 1, AccKey: 1, Bind: validBind(1)}, {Prov: 1, AccKey: 2, Bind: validBind(1)}}})
+		}
+		for ; i < *n; i++ {
+			emit(ev(genHist(r.Fork()), i))
 		}
 	case "conc":
 		for _, s := range interleavings(4, 4) {
